@@ -783,6 +783,8 @@ pub async fn process_multiple_changes(
         let mut processed: BTreeMap<ActorId, Vec<_>> = BTreeMap::new();
         // versions that became fully known in this batch although chunks of them were buffered
         let mut applied_complete: Vec<(ActorId, CrsqlDbVersion)> = vec![];
+        #[cfg(feature = "verif")]
+        let mut verif_applied: Vec<(ActorId, CrsqlDbVersion)> = vec![];
         let mut changesets = vec![];
 
         let mut count = 0;
@@ -918,6 +920,8 @@ pub async fn process_multiple_changes(
 
                     if !matches!(known, KnownDbVersion::Partial(_)) {
                         applied_complete.push((actor_id, *versions.start()));
+                        #[cfg(feature = "verif")]
+                        verif_applied.push((actor_id, *versions.start()));
                     }
 
                     known
@@ -1010,8 +1014,8 @@ pub async fn process_multiple_changes(
         }
 
         #[cfg(feature = "verif")]
-        for (actor_id, changeset, _, _) in changesets.iter() {
-            klukai_types::verif::applied_push(actor_id.to_bytes(), changeset.versions().start().0);
+        for (actor_id, version) in verif_applied.iter() {
+            klukai_types::verif::applied_push(actor_id.to_bytes(), version.0);
         }
 
         for (_, changeset, _, _) in changesets.iter() {
